@@ -219,7 +219,7 @@ type mopen struct {
 }
 
 // mirrorOpen follows Sweep.open_db.
-func mirrorOpen(v mview, listing []mfd, fl []int, bad map[mfd]bool) mopen {
+func mirrorOpen(v mview, listing []mfd, fl []int, mbad bool, bad map[mfd]bool) mopen {
 	files := map[mfd]bool{}
 	for _, f := range listing {
 		files[f] = true
@@ -248,7 +248,11 @@ func mirrorOpen(v mview, listing []mfd, fl []int, bad map[mfd]bool) mopen {
 			m := next
 			next++
 			files[mfd{0, m}] = true
-			rm(mfd{0, man})
+			// the old manifest: the error is only logged
+			res.calls = append(res.calls, mfd{0, man})
+			if files[mfd{0, man}] && !mbad {
+				delete(files, mfd{0, man})
+			}
 			man, hasman = m, true
 		}
 		for _, t := range outs {
@@ -330,6 +334,7 @@ type openObs struct {
 	before    []mfd
 	fl        []int
 	bad       map[mfd]bool
+	mbad      bool
 	badList   []mfd
 	calls     []mfd
 	ok        bool
@@ -426,8 +431,13 @@ func observeOpen(stor *vstor.Stor, o *opt.Options) (*openObs, *leveldb.DB, error
 			f := toM(op.Fd)
 			ob.calls = append(ob.calls, f)
 			if op.Fail {
-				ob.bad[f] = true
-				ob.badList = append(ob.badList, f)
+				if op.Fd.Type == storage.TypeManifest && (janAt < 0 || op.Idx < janAt) {
+					// the old manifest, removed by the session's first commit
+					ob.mbad = true
+				} else {
+					ob.bad[f] = true
+					ob.badList = append(ob.badList, f)
+				}
 			}
 			if !op.Fail && op.Fd.Type == storage.TypeJournal && idx < len(ob.replayed)-1 && op.Fd.Num == ob.replayed[idx] {
 				idx++
@@ -488,8 +498,8 @@ func (ob *openObs) kcases() (cases []string, mismatch string) {
 	if ob.ok {
 		j, m, nx = ob.nums.JournalNum, ob.nums.ManifestNum, ob.nums.NextFileNum
 	}
-	cases = append(cases, fmt.Sprintf("KOpen %s %s %s %s %s %s %s %d %d %d", ob.view.coq(), coqFds(ob.before), coqNs(fl),
-		coqFds(ob.badList), coqFds(ob.calls), vlib.CoqBool(ob.ok), coqFds(after), j, m, nx))
+	cases = append(cases, fmt.Sprintf("KOpen %s %s %s %s %s %s %s %s %d %d %d", ob.view.coq(), coqFds(ob.before), coqNs(fl),
+		vlib.CoqBool(ob.mbad), coqFds(ob.badList), coqFds(ob.calls), vlib.CoqBool(ob.ok), coqFds(after), j, m, nx))
 	pj := int64(0)
 	if ob.view.HasPrev {
 		pj = ob.view.Prev
@@ -503,7 +513,7 @@ func (ob *openObs) kcases() (cases []string, mismatch string) {
 		cases = append(cases, fmt.Sprintf("KJan %s %d %d None %s %s %s", coqNs(ob.janTabs), ob.janMan, ob.janJ, coqFds(ob.janList), coqFds(ob.badList), res))
 	}
 	// mirror
-	mo := mirrorOpen(ob.view, ob.before, ob.fl, ob.bad)
+	mo := mirrorOpen(ob.view, ob.before, ob.fl, ob.mbad, ob.bad)
 	switch {
 	case fmt.Sprint(mo.calls) != fmt.Sprint(ob.calls):
 		mismatch = fmt.Sprintf("Remove calls of Open: implementation %v, model %v", ob.calls, mo.calls)
@@ -798,7 +808,7 @@ func runSweep(c DBCase) (fail string, stats map[string]int, kc []string) {
 	}
 	if variant == 5 {
 		types := []storage.FileType{storage.TypeManifest, storage.TypeJournal, storage.TypeTable, storage.TypeTemp, 0}
-		stor.AddFault(&vstor.Fault{Kind: vstor.OpRemove, Type: types[r.Intn(len(types))], K: r.Intn(3)})
+		stor.AddFault(&vstor.Fault{Kind: vstor.OpRemove, Type: types[r.Intn(len(types))], K: r.Intn(3), Persistent: r.Chance(1, 3)})
 	}
 	ob, db, d := open("open")
 	if d != "" {
@@ -820,7 +830,7 @@ func runSweep(c DBCase) (fail string, stats map[string]int, kc []string) {
 	}
 	if !ob.ok {
 		stats["opens_failed"]++
-		if len(ob.badList) == 0 {
+		if len(ob.badList) == 0 && !ob.mbad {
 			return fmt.Sprintf("Open failed without an injected fault: %v", ob.err), stats, kc
 		}
 		// the next Open picks up what was left
@@ -834,7 +844,7 @@ func runSweep(c DBCase) (fail string, stats map[string]int, kc []string) {
 		}
 		stats["recovered_after_failed_open"]++
 		db = db2
-	} else if len(ob.badList) > 0 {
+	} else if len(ob.badList) > 0 || ob.mbad {
 		stats["remove_failure_tolerated"]++
 	}
 	// a few more opens: each must be exact again; with writes in between
@@ -935,9 +945,9 @@ func sweepPart(a vlib.Args, res *vlib.Result) []string {
 	close(jobs)
 	wg.Wait()
 	var kcases []string
-	budget := 1500 << 10
+	budget := 300 << 10
 	if a.Thorough() {
-		budget = 3 << 20
+		budget = 1 << 20
 	}
 	for _, o := range outs {
 		for _, k := range o.kc {
